@@ -55,6 +55,7 @@ func ticks(ttl int64) (short1, short2, long int64) {
 // A2: one client, two connections on node 0 and one on node 1 (same-node kick + cross-node reconnect).
 // A4: one client registered on node 0: all connection-ending paths (c e d s k x) x reconnects, <= 3 / 4 steps.
 // A5: one client registered on node 0: split lookups (q … r) on both nodes around reconnects, cleanups, expiry, <= 4 / 5 steps.
+// A6: split consumers (HTTP-proxy request y … z, command m … n) around handshakes, reconnects, close, expiry, <= 4 / 5 steps.
 // A3: one client registered on node 0: heartbeats / reconnect / late close / ticks of 0.45 and 0.7 lifetimes, up to 5 steps in the thorough tier.
 func genExhaustive(tier string, emit func(string)) {
 	lenTick, lenNoTick, lenA2 := 3, 3, 3
@@ -135,6 +136,50 @@ func genExhaustive(tier string, emit func(string)) {
 			emit(header(be, 1000, 2, []int{7}) + " o:0.7.0 o:0.7.1 o:1.7.0 h:0.7.0 " + strings.Join(w, " "))
 		})
 	}
+	// A6: consumers of the lookup as two steps (registry read … store read + decision) with other events in between:
+	// an HTTP-proxy request / a command for the client starts on node 0 or 1 around the client's first handshake on node 0,
+	// a same-node and a cross-node reconnect, the close, heartbeats and the expiry
+	a6 := []string{"y:0.7", "z:0.7", "m:1.7", "n:1.7", "y:1.7", "z:1.7", "h:0.7.0", "h:0.7.1", "h:1.7.0", "c:0.7.0", "b:0.7.0", "t:1300"}
+	lenA6 := 4
+	if tier == "thorough" {
+		lenA6 = 5
+	}
+	for _, be := range []string{"red", "mem"} {
+		tk := be == "red"
+		words(a6, lenA6, func(w []string) {
+			// well-formed and interesting only: every end ends a request in flight, at least one request spans an event
+			inflight := map[string]int{}
+			span := false
+			for i, t := range w {
+				switch t[0] {
+				case 'y', 'm':
+					k := t[:1] + t[2:]
+					if _, ok := inflight[k]; ok {
+						return
+					}
+					inflight[k] = i
+				case 'z', 'n':
+					k := map[byte]string{'z': "y", 'n': "m"}[t[0]] + t[2:]
+					b, ok := inflight[k]
+					if !ok {
+						return
+					}
+					if i > b+1 {
+						span = true
+					}
+					delete(inflight, k)
+				case 't':
+					if !tk {
+						return
+					}
+				}
+			}
+			if !span {
+				return
+			}
+			emit(header(be, 1000, 2, []int{7}) + " o:0.7.0 o:0.7.1 o:1.7.0 " + strings.Join(w, " "))
+		})
+	}
 	a2 := []string{"h:0.7.0", "h:0.7.1", "h:1.7.0", "c:0.7.0", "c:0.7.1", "c:1.7.0", "b:0.7.0"}
 	for _, be := range []string{"red", "mem"} {
 		words(a2, lenA2, func(w []string) {
@@ -190,8 +235,17 @@ func genRandom(r *common.Rand, backend string, withTicks bool, emit func(string)
 		return common.Pick(r, cand)
 	}
 	inflight := map[string]bool{}
+	reqInflight := map[string]bool{}
+	downNodes := map[int]bool{}
+	endOf := map[byte]string{'y': "z", 'm': "n"}
 	n := 6 + r.Intn(18)
 	for len(evs) < n {
+		for _, rk := range sortedKeys(reqInflight) {
+			if r.Intn(3) == 0 {
+				evs = append(evs, endOf[rk[0]]+rk[1:])
+				reqInflight[rk] = false
+			}
+		}
 		// lookups in flight end with some probability after every event
 		for _, lk := range sortedKeys(inflight) {
 			if r.Intn(3) == 0 {
@@ -262,6 +316,7 @@ func genRandom(r *common.Rand, backend string, withTicks bool, emit func(string)
 			if r.Intn(3) == 0 {
 				n := r.Intn(nn)
 				evs = append(evs, fmt.Sprintf("x:%d", n))
+				downNodes[n] = true
 				for _, sc := range conns {
 					if sc.c.node == n {
 						sc.authed = false
@@ -279,7 +334,17 @@ func genRandom(r *common.Rand, backend string, withTicks bool, emit func(string)
 				evs = append(evs, "r:"+lk)
 				inflight[lk] = false
 			}
-		case w < 95: // the same id offered again
+		case w < 95 && len(evs) > 1: // a consumer of the lookup starts on some node; it goes on a few events later
+			nd := r.Intn(nn)
+			if !downNodes[nd] {
+				kind := common.Pick(r, []string{"y", "m"})
+				rk := fmt.Sprintf("%s:%d.%d", kind, nd, common.Pick(r, clients))
+				if !reqInflight[rk] {
+					evs = append(evs, rk)
+					reqInflight[rk] = true
+				}
+			}
+		case w < 96: // the same id offered again
 			if sc := pickConn(func(s *simConn) bool { return true }); sc != nil {
 				evs = append(evs, "o:"+sc.c.String())
 			}
@@ -372,6 +437,9 @@ func genBoundary(emit func(string)) {
 		emit(h(2, 7) + " o:0.7.0 h:0.7.0 q:1.7 o:0.7.1 h:0.7.1 r:1.7 b:0.7.1 r:1.7")
 		emit(h(3, 7) + " o:0.7.0 h:0.7.0 q:2.7 q:0.7 o:1.7.0 h:1.7.0 c:0.7.0 r:2.7 r:0.7 b:1.7.0 q:1.7")
 		emit(h(2, 7, 0) + " q:0.0 r:0.0 q:1.7 r:1.7 o:0.7.0 q:0.7 h:0.7.0 r:0.7 q:0.7 q:0.7 c:0.7.0 r:0.7")
+		// split consumers: around the first handshake, a same-node reconnect, never ended, ended twice, client 0, a stopped node
+		emit(h(2, 7) + " o:0.7.0 y:0.7 h:0.7.0 z:0.7 b:0.7.0 z:0.7 m:0.7 o:0.7.1 h:0.7.1 n:0.7 y:1.7 c:0.7.1 z:1.7")
+		emit(h(2, 7, 0) + " y:0.0 z:0.0 m:1.0 n:1.0 o:1.7.0 m:1.7 y:1.7 h:1.7.0 n:1.7 z:1.7 y:0.7 x:1 z:0.7 m:0.7")
 		emit(h(2, 7) + " o:0.7.0 h:0.7.0 o:0.7.1 k:0.7.1 d:0.7.0 s:0.7.0 e:0.7.0 h:0.7.1 k:0.7.1 k:0.7.0 e:0.7.1")                            // eviction, then the read loop ends
 		emit(h(2, 7, 9) + " o:0.7.0 h:0.7.0 o:0.9.0 h:0.9.0 o:1.9.1 h:1.9.1 x:0 b:0.7.0 s:0.7.0 e:0.7.0 e:0.9.0 o:0.7.1 h:0.7.1 x:1 e:1.9.1") // shutdown
 	}
